@@ -13,7 +13,7 @@ for pid in sorted(os.listdir(root)):
         if p.returncode != 0:
             print(pid, "PATCH DOES NOT APPLY", p.stdout[-200:]); miss += 1; continue
         for s in seeds:
-            r = subprocess.run(["/verif/check", pid, "quick"], env=dict(os.environ, VERIF_REPO=d, VERIF_SEED=s), capture_output=True, text=True)
+            r = subprocess.run(["/verif/check", pid.split("-")[0], "quick"], env=dict(os.environ, VERIF_REPO=d, VERIF_SEED=s), capture_output=True, text=True)
             for l in r.stdout.splitlines():
                 if l.startswith("VIOLATION") and "replay=" in l:
                     try: os.remove(l.split("replay=")[1].strip())
